@@ -269,7 +269,7 @@ type c12Obs struct {
 	Ctl      *c12Ctl
 }
 
-const c12Timeout = 2 * time.Second
+const c12Timeout = 5 * time.Second
 
 // c12Execute runs the case on the real queue, following the model's tokens grant by grant.
 func c12Execute(c *c12Case, tokens []string) *c12Obs {
@@ -908,7 +908,7 @@ func runC12(a vh.Args, o *vh.Oracle, r *vh.Result) error {
 		}
 	}
 	// sampled schedules for up to 6 callers
-	n := 500
+	n := 2000
 	if a.Tier == "thorough" {
 		n = 12000
 	}
